@@ -24,6 +24,7 @@
 #include <semaphore.h>
 #include <signal.h>
 #include <sys/mman.h>
+#include <sys/syscall.h>
 #include <sys/personality.h>
 #include <sys/resource.h>
 #include <sys/stat.h>
@@ -2034,8 +2035,14 @@ static void serve_one(int real_timeout_ms) {
       if (errno == EINTR) continue;
       break;
     } else if (r == 0) {
+      // the backstop is measured in CPU time consumed by the child (all its threads), so that a machine loaded by other checks
+      // cannot turn a slow case into a "hang"; wall time only bounds a child that is blocked without consuming CPU
       waited += 100;
-      if (waited >= real_timeout_ms) { timed_out = true; kill(pid, SIGKILL); break; }
+      long cpu_ms = -1;
+      clockid_t cid;
+      struct timespec cts;
+      if (clock_getcpuclockid(pid, &cid) == 0 && syscall(SYS_clock_gettime, cid, &cts) == 0) cpu_ms = (long)cts.tv_sec * 1000 + cts.tv_nsec / 1000000;
+      if ((cpu_ms >= 0 ? cpu_ms >= real_timeout_ms : waited >= real_timeout_ms) || waited >= 8 * real_timeout_ms) { timed_out = true; kill(pid, SIGKILL); break; }
     } else if (errno != EINTR) {
       break;
     }
